@@ -428,6 +428,96 @@ def repeated_sql(change: int, as_dict: bool, read_first: bool, via: int) -> bool
     return done(fast.native(_repeated_sql, P(change, 4), bool(P(as_dict, 2)), bool(P(read_first, 2)), P(via, 2)))
 
 
+# ------------------------------------------------------------------ server-side (qmark) parameters belong to the statement they came with
+QM_FIRST = [("select a from t1 where a = ?", (5,)), ("select a from t1 where a = ? or a = ?", (5, 6)), ("insert into t1 (a, b) values (?, ?)", (1, "x"))]
+QM_SECOND = [
+    ("update t1 set a = 2 where a = 1", None),
+    ("create table tq (a int)", None),
+    ("use schema s2", None),
+    ("begin", None),
+    ("set v1 = 3", None),
+    ("select a from t1", None),
+    ("select a from t1 where a = ?", (9,)),
+    ("delete from t1 where a = ? or a = ? or a = ?", (1, 2, 3)),
+    ("comment on table t1 is 'c'", None),
+    ("call my_proc(1)", None),
+]
+
+
+def _qmark_sequence(fi: int, si: int, read_between: bool, as_dict: bool) -> bool:
+    eng = std_engine()
+    conn = _conn("qmark", eng)
+    eng.query_result = StubTable(["A"], [(1,), (2,)])
+    cur = conn.cursor(DictCursor) if as_dict else conn.cursor()
+    q1, p1 = QM_FIRST[fi]
+    cur.execute(q1, p1)
+    if read_between:
+        cur.description  # noqa: B018
+    q2, p2 = QM_SECOND[si]
+    cur.execute(q2, p2)
+    desc = cur.description  # the stand-in engine checks placeholder counts like DuckDB: stale or missing values raise
+    rows = cur.fetchall()
+    if not desc or (rows and len(desc) != len(rows[0])):
+        return False
+    # and the same statement on a fresh cursor is described identically
+    fresh = conn.cursor(DictCursor) if as_dict else conn.cursor()
+    if si not in (1, 3):  # CREATE TABLE / BEGIN cannot be repeated
+        fresh.execute(q2, p2)
+        if [d.name for d in fresh.description] != [d.name for d in desc]:
+            return False
+    return True
+
+
+@ob(
+    "C06.description_uses_the_parameters_of_its_own_statement",
+    encodes=["FakeSnowflakeCursor._execute (_last_sql / _last_params bookkeeping)", "FakeSnowflakeCursor.description/_describe_last_sql"],
+    bounds="qmark paramstyle; one cursor executes a first statement with 1-2 bound values (2 queries, 1 INSERT), optionally reads description, then one of 10 second statements "
+    "(without values: UPDATE, CREATE TABLE, USE, BEGIN, SET, query, COMMENT, a no-op'd CALL; with 1 or 3 values: query, DELETE): description after the second statement is "
+    "available and equals the description on a fresh cursor; tuple / dict cursor",
+    timeout=(200, 400),
+    stubs=["K1/K2/K6 vf.duckstub.Engine (placeholder counts checked as DuckDB does - validated)"],
+)
+def qmark_sequence(fi: int, si: int, read_between: bool, as_dict: bool) -> bool:
+    """
+    pre: 0 <= fi < len(QM_FIRST) and 0 <= si < len(QM_SECOND)
+    post: _
+    """
+    P = fast.pick
+    return done(fast.native(_qmark_sequence, P(fi, len(QM_FIRST)), P(si, len(QM_SECOND)), bool(P(read_between, 2)), bool(P(as_dict, 2))))
+
+
+def _real_qmark_sequence(a: dict):
+    from fakesnow.instance import FakeSnow
+
+    saved = snowflake.connector.paramstyle
+    snowflake.connector.paramstyle = "qmark"
+    try:
+        conn = FakeSnow(nop_regexes=[r"^call\s"]).connect(database="db1", schema="s1")
+    finally:
+        snowflake.connector.paramstyle = saved
+    boot = conn.cursor()
+    for ddl in ("create schema db1.s2", "create table t1 (a int, b varchar)", "insert into t1 values (5, 'y')"):
+        boot.execute(ddl)
+    cur = conn.cursor(DictCursor) if a["as_dict"] else conn.cursor()
+    q1, p1 = QM_FIRST[a["fi"]]
+    q2, p2 = QM_SECOND[a["si"]]
+    try:
+        cur.execute(q1, p1)
+        if a["read_between"]:
+            cur.description  # noqa: B018
+        cur.execute(q2, p2)
+    except Exception as e:  # noqa: BLE001
+        return None, f"statements themselves failed on the real stack: {type(e).__name__}: {str(e)[:100]}"
+    try:
+        desc = cur.description
+    except Exception as e:  # noqa: BLE001
+        return True, f"real stack: description after {q2!r} (preceded by {q1!r} with {p1}) raised {type(e).__name__}: {str(e)[:100]}"
+    return not desc, f"real stack: description {[d.name for d in desc]}"
+
+
+REGISTRY["C06.description_uses_the_parameters_of_its_own_statement"].real_replay = _real_qmark_sequence
+
+
 # ------------------------------------------------------------------ independence of what happened before (shared harness)
 import obligations.shared_independence as _indep  # noqa: E402
 
